@@ -159,6 +159,17 @@ def run(ck, prog, tier, load):
         ok = bool(eofd) and dn.must_pass([tb], dn.returns(), eofd)[0]
         ck.ob("C13-d.decoder-eof-set", "Decoder::poll_next", ok, dn, tb, "the end of the coded request body sets eof on every path (the source is not polled again)")
         ck.ob("C13-d.decoder-flushes", "Decoder::poll_next", bool(fe) and any(dn.dominates(tb, f) for f in fe), dn, tb, "... and the decoder is flushed with feed_eof")
+    # the codec state taken out of its slot for a data chunk goes back (or into the blocking task) before the stream goes on:
+    # a decoder that is dropped on some path turns the rest of the coded body into pass-through bytes
+    src_polls = [bb for bb, t in dn.calls(r"Stream.*::poll_next$")]
+    takes = [bb for bb, t in dn.calls(r"Option.*::take$") if e_has_field(dn.op_expr(t["args"][0]), r"\.decoder$") and not any(dn.dominates(tb, bb) for tb in none_d)]
+    ck.anchor("C13-d", len(takes), 1, "decoder.take() on the data path of Decoder::poll_next")
+    put_back = [bb for bb, i, s_ in dn.assigns() if any(isinstance(x, str) and (x.endswith(".decoder") or x.endswith(".fut")) for x in s_["p"][1:]) and is_agg(dn.rv_expr(s_["rv"], 3), r"Option::Some$")]
+    for tk in takes:
+        some_edges = [tb for a in dn.live for br in [dn.branch(a)] if br and br[0][0] == "discr" and isinstance(br[0][1], tuple) and br[0][1][0] == "call" and br[0][1][3] == tk for lab, tb in br[1] if lab == "Some"]
+        ends = set(src_polls) | set(bb for bb, e in dn.ret_exprs() if agg_chain(e)[0][:3] == ["core::task::poll::Poll::Ready", "core::option::Option::Some", "core::result::Result::Ok"])
+        ok = bool(some_edges) and bool(put_back) and dn.must_pass(some_edges, ends, put_back)[0]
+        ck.ob("C13-d.decoder-restored", "Decoder::poll_next", ok, dn, tk, "from `decoder.take()` every path that delivers data or polls the source again first stores the decoder back (or hands it to the blocking task)")
 
     # ---- middleware ---------------------------------------------------------------------------------
     mc = prog.one(r"^<actix_web::middleware::compress::CompressMiddleware<S> as actix_service::Service<actix_web::service::ServiceRequest>>::call$")
@@ -174,3 +185,58 @@ def run(ck, prog, tier, load):
     er = [(b, bb, t) for b in cr for c in prog.with_closures(b) for bb, t in c.calls(r"encoder::Encoder.*::response$") for b in [c]]
     ok = bool(er) and all(any(r_[0] in ("var", "phi", "arg") for r_ in e_roots(b.op_expr(t["args"][0]))) or any(isinstance(p, str) and p.startswith(".^") for x in walk(b.op_expr(t["args"][0])) if x[0] == "place" for p in x[2]) for b, bb, t in er)
     ck.ob("C13-c.negotiated-value-used", "CompressResponse::poll", ok, er[0][0] if er else None, er[0][1] if er else None, "Encoder::response receives the negotiated coding (or Identity when the content type is excluded)")
+    negotiation_rules(ck, prog)
+
+
+def negotiation_rules(ck, prog):
+    """(e) structure of AcceptEncoding::negotiate: what is chosen comes from an item the client accepted"""
+    ng = prog.one(r"^actix_web::http::header::accept_encoding::AcceptEncoding::negotiate$")
+    clos = [c for c in prog.with_closures(ng) if c is not ng]
+    # every returned value that can be Some: `Some(x)` aggregates, and Options computed by a call (x = the whole expression)
+    somes = [(bb, e) for bb, e in ng.ret_exprs() if not is_agg(e, r"Option::None$")]
+    ck.anchor("C13-e", len(somes), 2, "returns of AcceptEncoding::negotiate that can carry a coding")
+    # closures that test `quality > ZERO`
+    positive = [c for c in clos if any(e_calls(e, r"PartialOrd::gt$|PartialOrd>::gt$") and e_has_const(e, r"Quality::ZERO$|ZERO$") for bb, e in c.ret_exprs())]
+    for bb, e in somes:
+        val = (e[3][0] if e[3] else None) if is_agg(e, r"Option::Some$") else e
+        if val is not None and e_calls(val, r"Encoding::identity$") and not e_calls(val, r"Iterator::find$"):
+            ok = any((c[0] == "call" and rx(r"is_identity_acceptable$").search(c[1] or "") and lab is True) or (c[0] == "call" and rx(r"Vec.*::is_empty$").search(c[1] or "") and lab is True) for c, lab, a in ng.guards(bb))
+            ck.ob("C13-e.identity-needs-acceptability", "negotiate|bb", ok, ng, bb, "identity is answered only when the header is empty or is_identity_acceptable(..) holds")
+            continue
+        finds = e_calls(val, r"Iterator::find$|Iterator::find_map$") if val is not None else []
+        filt = e_calls(val, r"Iterator::filter$") if val is not None else []
+        from_item = bool(finds) and any(isinstance(p_, str) and p_ == "@Specific" for x in walk(val) if x[0] == "place" for p_ in x[2])
+        filtered = bool(filt) and bool(positive)
+        ck.ob("C13-e.chosen-from-accepted-item", "negotiate", from_item and filtered, ng, bb,
+              "a coding other than identity is answered only if it is the payload of an item found in the client's list after the `quality > 0` filter (never a coding picked from the server's own list): %s" % short(val, 4))
+    ck.ob("C13-e.zero-quality-filtered", "negotiate", bool(positive), ng, None, "the candidate list is filtered by `quality > Quality::ZERO` (a coding listed with q=0 is refused)")
+    # the specific `identity` item takes precedence over `*` wherever it stands in the list
+    ia = prog.one(r"accept_encoding::is_identity_acceptable$")
+    any_rets = [bb for bb, e in ia.ret_exprs() if any(c[0] == "discr" and lab == "Any" for c, lab, a in ia.guards(bb))]
+    ia_clos = [c for c in prog.with_closures(ia) if c is not ia]
+    ok = False
+    why = "no consultation of `*` found"
+    if any_rets:
+        # explicit-loop form: the `*` arm sits in the same scan as the `identity` arm -> whichever comes first decides
+        nexts = [bb for bb, t in ia.calls(r"Iterator>::next$")]
+        in_same_scan = any(any(ia.dominates(n, r_) and n in ia.reach(ia.succ[r_]) or (ia.dominates(n, r_) and any(c[0] == "discr" and e_calls(c, r"Iterator>::next$") and lab == "Some" for c, lab, a in ia.guards(r_))) for n in nexts) for r_ in any_rets)
+        ident_rets = [bb for bb, e in ia.ret_exprs() if any(c[0] == "discr" and lab == "Identity" for c, lab, a in ia.guards(bb))]
+        same_loop = bool(ident_rets) and any(any(c[0] == "discr" and e_calls(c, r"Iterator>::next$") and lab == "Some" for c, lab, a in ia.guards(r_)) for r_ in any_rets) and \
+            all(not any(c[0] == "discr" and e_calls(c, r"Iterator>::next$") and lab == "None" for c, lab, a in ia.guards(r_)) for r_ in any_rets)
+        ok = not same_loop
+        why = "`*` is consulted inside the same scan that looks for `identity`: the item with the higher quality decides" if same_loop else "`*` is consulted only after a completed scan for `identity`"
+    else:
+        # find-form: two searches, the one for identity first
+        finds = [(bb, t) for bb, t in ia.calls(r"Iterator::find$|Iterator::position$|Iterator::any$")]
+        def clo_matches(t, name):
+            for c in ia_clos:
+                if any(isinstance(lab, str) and lab == name for a in c.live for br in [c.branch(a)] if br for lab, tb in br[1]):
+                    if any(x[0] == "agg" and norm(x[2] or "") == c.npath for arg in t["args"] for x in walk(ia.op_expr(arg, 3))):
+                        return True
+            return False
+        f_id = [bb for bb, t in finds if clo_matches(t, "Identity")]
+        f_any = [bb for bb, t in finds if clo_matches(t, "Any") and bb not in f_id]
+        ok = bool(f_id) and bool(f_any) and all(any(ia.dominates(i_, a_) for i_ in f_id) and any(c[0] == "discr" and lab == "None" for c, lab, g in ia.guards(a_)) for a_ in f_any)
+        why = "search for `identity` completes (None) before `*` is consulted" if ok else "could not establish that the search for `identity` precedes the consultation of `*`"
+    ck.ob("C13-e.specific-identity-before-wildcard", "is_identity_acceptable", ok, ia, (any_rets or [None])[0],
+          "`identity;q=0` refuses identity even when `*` is listed with a higher quality (RFC 7231 5.3.4: the more specific item wins): %s" % why)
